@@ -42,6 +42,8 @@ MODES = {
     "clang": ("clang-14", ["-std=c11", "-O2", "-msse4.2", "-DNDEBUG"]),
     "tsan": ("gcc", ["-std=c11", "-O1", "-g", "-msse4.2", "-fsanitize=thread"]),
     "msan": ("clang-14", ["-std=c11", "-O1", "-g", "-msse4.2", "-fsanitize=memory", "-fno-omit-frame-pointer"]),
+    # coverage measurement of the correspondence / oracle inputs (vlib/coverage.py); never used by a registered check
+    "cov": ("gcc", ["-std=c11", "-O0", "-g", "-msse4.2", "--coverage", "-fprofile-update=atomic"]),
 }
 
 WRAPS = "-Wl,--wrap=malloc,--wrap=calloc,--wrap=realloc,--wrap=free,--wrap=edn_arena_alloc"
@@ -163,6 +165,9 @@ def missing_helpers(cfg="core"):
 
 def harness(style, cfg, mode):
     """Build (or reuse) a harness binary.  style: 'unity' or 'wrap'."""
+    if os.environ.get("VERIF_COV") and mode != "cov":
+        # coverage run (vlib/coverage.py): every harness process is the gcov-instrumented build
+        return cov_harness(style, cfg)
     bd = build_dir()
     out = os.path.join(bd, "%s-%s-%s" % (style, cfg, mode))
     if os.path.exists(out):
@@ -187,6 +192,38 @@ def harness(style, cfg, mode):
             _run_cc([cc] + flags + CFGS[cfg] + ["-DVERIF_WRAP", "-w"] + inc + [hsrc] + objs +
                     [WRAPS, "-o", tmp, "-lm", "-lpthread"])
             shutil.rmtree(objdir, ignore_errors=True)
+        os.rename(tmp, out)
+    return out
+
+
+def cov_harness(style, cfg):
+    """gcov-instrumented harness; objects (and their .gcno/.gcda files) are kept in <build>/cov-<style>-<cfg>.objs/"""
+    bd = build_dir()
+    out = os.path.join(bd, "%s-%s-cov" % (style, cfg))
+    if os.path.exists(out):
+        return out
+    with Lock("cc-%s-%s-cov" % (style, cfg)):
+        if os.path.exists(out):
+            return out
+        cc, flags = MODES["cov"]
+        inc = ["-I" + os.path.join(REPO, "src"), "-I" + os.path.join(REPO, "include")]
+        hsrc = os.path.join(VERIF, "harness", "edn_harness.c")
+        objdir = os.path.join(bd, "cov-%s-%s.objs" % (style, cfg))
+        os.makedirs(objdir, exist_ok=True)
+        tmp = out + ".tmp%d" % os.getpid()
+        if style == "unity":
+            o = os.path.join(objdir, "edn_harness.o")
+            _run_cc([cc] + flags + CFGS[cfg] + helper_flags(cfg)[0] + ["-DVERIF_UNITY", "-w", "-c"] + inc + [hsrc, "-o", o])
+            _run_cc([cc] + flags + [o, "-o", tmp, "-lm", "-lpthread"])
+        else:
+            objs = []
+            for f in SRC_FILES:
+                o = os.path.join(objdir, f[:-2] + ".o")
+                _run_cc([cc] + flags + CFGS[cfg] + ["-w", "-c"] + inc + [os.path.join(REPO, "src", f), "-o", o])
+                objs.append(o)
+            ho = os.path.join(objdir, "edn_harness.o")
+            _run_cc([cc, "-std=c11", "-O0", "-g", "-msse4.2"] + CFGS[cfg] + ["-DVERIF_WRAP", "-w", "-c"] + inc + [hsrc, "-o", ho])
+            _run_cc([cc] + flags + [ho] + objs + [WRAPS, "-o", tmp, "-lm", "-lpthread"])
         os.rename(tmp, out)
     return out
 
